@@ -11,7 +11,7 @@ def run(ctx):
     plan = [
         {"scens": wcat.dag_scenarios(3, rotations=(0,), with_failures=True, all_orders=False), "policies": ("FIFO", "JOBS"), "bound": 1},
         {"scens": wcat.dag_scenarios(3, rotations=(5,), with_failures=True, all_orders=True, min_n=3)[:: (4 if q else 1)], "policies": ("LIFO",), "bound": 1},
-        {"scens": [s for s in wcat.token_scenarios(("file", "process")) if s["name"].endswith(":fail")], "policies": ("FIFO", "LIFO"), "bound": 1 if q else 2},
+        {"scens": [s for s in wcat.token_scenarios(("file", "process")) if s["name"].endswith(":fail")], "policies": ("FIFO", "LIFO"), "bound": 1 if q else 2, "demote": True},
     ]
     plan.append({"scens": wcat.special_dep_scenarios(failing=True), "policies": ("FIFO", "LIFO"), "bound": 1})
     plan.append({"scens": wcat.wait_scenarios(), "policies": ("FIFO", "LIFO", "JOBS"), "bound": 1})
